@@ -41,6 +41,10 @@ TREES = {
     "three levels": ({
         "index.md": page("Root", "[deep](l1/l2/leaf.html)\n"), "l1/index.md": page("L1", "[down](l2/index.html) [up](../index.html)\n"), "l1/l2/index.md": page("L2", "[top](../../index.html) ![logo](|media|/logo.png)\n"),
         "l1/l2/leaf.md": page("Leaf", "[root](|page|/index.html) [l1](../index.html) [[m]] [[s]] [docs](|url|)\n"), "l1/l2/pic.svg": "<svg/>", "l1/side.md": page("Side", "[leaf](l2/leaf.html)\n")}, ""),
+    "aliases in raw html": ({
+        "index.md": page("Root", "<div align=\"center\"><img src=\"|media|/logo.png\" width=\"200\"></div>\n\ninline <a href=\"|page|/deep/index.html\">deep</a> and <img src='|media|/logo.png' height=\"10\"> here\n"),
+        "deep/index.md": page("Deep", "<div align=\"center\"><img src=\"|media|/logo.png\" width=\"200\"></div>\n\n<p>back <a href=\"|page|/index.html\">root</a>, <a href=\"|url|/index.html\">home</a></p>\n"),
+        "deep/er/index.md": page("Deeper", "<table><tr><td><img src=\"|media|/logo.png\"></td><td><a href=\"|page|/deep/index.html\">up</a></td></tr></table>\n\ntext <img src=\"|media|/logo.png\" width=\"5\"> end\n")}, ""),
     "sub-directory whose index has no title": ({
         "index.md": page("Root"), "good.md": page("Good"), "broken/index.md": "no metadata here\n", "broken/inner.md": page("Inner"), "z.md": page("Z")}, ""),
 }
@@ -149,6 +153,8 @@ def check_tree(name, tree, proj_meta):
                 nav = [(os.path.normpath(os.path.join(os.path.dirname(p), h)), re.sub(r"<[^>]+>", "", t).strip()) for h, t in NAV.findall(toc)]
                 if len(exp_pages) > 1 and nav != [(os.path.normpath(q), t) for q, t in exp_pages]:
                     bad.append(f"navigation of page/{p} lists {nav}; documented order is {exp_pages}")
+                if re.search(r"\|(media|page|url)\|", text):
+                    bad.append(f"page/{p}: an alias is left unsubstituted in the written page")
         pr, n, npages = site.walk_links(os.path.join(pd, "doc"))
         bad += [x for x in pr if x.startswith("page" + os.sep)]
         return bad
